@@ -58,6 +58,16 @@ def _replay_values(args):
     return out
 
 
+def _random_search(args):
+    modname, gname, labels, seed = args
+    from g3dvc import engine
+    mod = importlib.import_module(modname)
+    g = [x for x in mod.groups("thorough") if x.name == gname or ("frame of " + x.name) == gname]
+    if not g:
+        return dict(found={}, admitted_trials=0)
+    return engine.run_random(g[0].harness, 400, seed, labels)
+
+
 def replay_file(path):
     rp = json.load(open(path))
     modname = "props." + rp["property"]
@@ -167,6 +177,23 @@ def run_property(prop, tier, seed):
             probes_ok += 1
         else:
             errors.append((gn, "vacuity probe '%s' was not refuted on any path (%s)" % (lab, sorted(set(sts)))))
+
+    # undecided clauses: random concrete search on the real code with the same harness (a failing input is a violation with a
+    # native replay; finding none leaves the clause undecided)
+    und_by_group = {}
+    for gname, label, why in undecided:
+        if gname in gmap and label != "(whole group)":
+            und_by_group.setdefault(gname, []).append(label)
+    if und_by_group:
+        sjobs = [((gn,), _random_search, (("props." + prop, gn, labs, seed),), 180) for gn, labs in und_by_group.items()]
+        sres = runner.run_functions(sjobs)
+        for gn, labs in und_by_group.items():
+            rr = sres.get((gn,), {})
+            fnd = (rr.get("value") or {}).get("found", {}) if rr.get("ok") else {}
+            for lab, vals in fnd.items():
+                ob = dict(label=lab, kind="ensures", path="random-search", status="refuted", backend="random concrete search (solver undecided)", seconds=0.0, model=vals, notes=[])
+                replay_jobs.append((gmap[gn], ob))
+                undecided[:] = [u for u in undecided if not (u[0] == gn and (u[1].startswith(lab) or lab.startswith(u[1])))]
 
     # native replay of every counter-model
     rjobs = [((i,), _replay_values, (("props." + prop, g.name, ob.get("model", {}), tier),), 120) for i, (g, ob) in enumerate(replay_jobs)]
